@@ -52,15 +52,31 @@ def flow_constraints(rep, res, entry, need, probs=None, rule="R-FLOW", what="con
     """each origin in `need` must DATA-reach at least one constraint"""
     probs = probs if probs is not None else final_problems(res)
     for po, obj, cons in probs:
-        alld = set()
-        for c in cons:
-            alld |= R.closure_deps(res, c)
+        # only constraints that (transitively) share a variable with the objective constrain what is optimised: a constraint
+        # list built for an earlier variable object of the same name is vacuous for this problem
+        ov = set(R.leaf_kinds(res, obj)[1])
+        cvs = [(c, R.leaf_kinds(res, c)[1]) for c in cons]
+        grew = True
+        while grew and ov:
+            grew = False
+            for c, cv in cvs:
+                if cv & ov and not cv <= ov:
+                    ov |= cv
+                    grew = True
+        alld, foreign = set(), set()
+        for c, cv in cvs:
+            if not ov or not cv or (cv & ov):
+                alld |= R.closure_deps(res, c)
+            else:
+                foreign |= R.closure_deps(res, c)
         for o in sorted(need):
             ok = o in alld
             rep.check(rule, f"{o} → {what}", ok, where=where_po(po),
                       construct=f"{o} → {what} of the problem built in {po.fn.name}", entry=entry, config=res.config,
-                      msg=(f"`{o}` reaches no constraint of the problem (origins reaching constraints: {sorted(alld)}): "
-                           f"the returned intensities are not constrained by it") if not ok else "reaches a constraint")
+                      msg=((f"`{o}` reaches only constraints on a variable that this problem does not optimise (a constraint list built for "
+                            f"another variable object is reused): the optimised variable is not constrained by it") if o in foreign else
+                           (f"`{o}` reaches no constraint of the problem (origins reaching constraints: {sorted(alld)}): "
+                            f"the returned intensities are not constrained by it")) if not ok else "reaches a constraint")
 
 
 def solve_kwargs(rep, res, entry, origin="solver_opt"):
@@ -183,7 +199,7 @@ def sign_attrs(rep, res, entry):
                               config=res.config)
 
 
-def forwards(rep, res, entry, callee_names, need, rule="R-FORWARD"):
+def forwards(rep, res, entry, callee_names, need, rule="R-FORWARD", exact=True):
     """The call(s) from the entry into the fitting layer bind each parameter in `need` (dict callee-param ->
     required origin) to a value that DATA-depends on that origin."""
     calls = [ev for ev in res.events("call") if ev.d["callee"].name in callee_names and len(ev.path) == 1]
@@ -201,10 +217,14 @@ def forwards(rep, res, entry, callee_names, need, rule="R-FORWARD"):
             if v is None and "**" in bound:
                 v = bound["**"]
             ok = v is not None and origin in v.flat().data
+            if ok and exact:
+                extra = {o for o in v.flat().data if o != origin and not o.startswith(("sol#", "par#", "xsample@"))}
+                if extra:
+                    ok = False
             rep.check(rule, f"{origin} → {fn.name}({p}=)", ok, where=ev.loc, construct=f"{fn.name}(… {p}= …) in {ev.fn.name}",
                       entry=entry, config=res.config,
-                      msg=(f"`{p}` of {fn.name} is " + ("not passed" if v is None else f"bound to a value with origins {sorted(v.flat().data)}")
-                           + f", not to {origin}") if not ok else "forwarded")
+                      msg=(f"`{p}` of {fn.name} is " + ("not passed" if v is None else f"bound to a value computed from {sorted(v.flat().data)}")
+                           + f" instead of being handed on unchanged from {origin}") if not ok else "forwarded")
     return calls
 
 
@@ -232,6 +252,12 @@ def must_constraint(rep, res, entry, origin, label, probs=None, rule="R-FLOW"):
 
 def hygiene(rep, res, entry, shape=True, purity=True, dtype=True, value=True, refresh=True):
     """Rules that apply to every fitting entry point."""
+    R.rule_no_global_state(rep, res, entry)
+    R.rule_dtype_casts(rep, res, entry)
+    R.rule_row_pick(rep, res, entry)
+    R.rule_iterator_reuse(rep, res, entry)
+    if refresh:
+        R.rule_every_iteration_solves(rep, res, entry)
     if shape:
         R.rule_type_errors(rep, res, "SHAPE", "R-SHAPE", entry)
     if value:
